@@ -5,7 +5,7 @@ import Pog.Model.Registry
 
     * `handlerRaises`  = the `for resp_ir in other_responses:` loop of
       `EndpointResponseHandlerGenerator.generate_response_handling`: a response whose `status_code`
-      `.isdigit()` and does not `.startswith("2")` gets `raise <get_exception_class_name(int(code))>(…)` and
+      `.isdigit()`, does not `.startswith("2")` and `is_error_code(int(code))` gets `raise <get_exception_class_name(int(code))>(…)` and
       `context.add_import(core_package_name, <that name>)`.  (The primary 2xx response is the only one
       removed from `other_responses`; it would not be raised anyway.)
     * `generatedCodes` = `ExceptionVisitor.visit` (`Pog.specCodes`/`Pog.genFor` of the Registry model).
@@ -23,7 +23,8 @@ def digitsToNat (s : Str) : Nat := s.foldl (fun n c => 10 * n + (c.toNat - '0'.t
 
 /-- The codes for which one operation's handler emits `raise Alias(response=response)`. -/
 def handlerRaises (statusCodes : List Str) : List Nat :=
-  (statusCodes.filter (fun s => isDigitStr s && !startsWith s ['2'])).map digitsToNat
+  -- `elif is_error_code(status_code_val)` (F3 repaired): a declared 1xx/3xx status raises the base HTTPError, no alias
+  (statusCodes.filter (fun s => isDigitStr s && !startsWith s ['2'] && isErrorCode (digitsToNat s))).map digitsToNat
 
 /-- The same for codes given as numbers (written without leading zeros). -/
 def raisedCodes (declared : List Nat) : List Nat := handlerRaises (declared.map natStr)
